@@ -453,6 +453,39 @@ def treeAll (ctx : Ctx) (fuel : Nat) (t : Tree) : Trace :=
   | .ok t' => (treeChildren ctx fuel t' 1).1.cons t'.entry
   | o => Trace.fail o
 
+/-- a caller that does not iterate every child list to its end (so that `EntriesTree::next` has
+to pass over what was left, through the `DW_AT_sibling` fast path where there is one). The rule
+is fixed by the entry's offset: `offset % 3 = 0` — iterate all children; `1` — do not look at
+the children; `2` — process the first child only and drop the iterator.
+`all = false` is the "first child only" loop. -/
+def treeSkip (ctx : Ctx) : Nat → Tree → Int → Bool → Trace × Tree
+  | 0, t, _, _ => (([], .diverge), t)
+  | fuel + 1, t, depth, all =>
+    match t.next ctx depth with
+    | .ok (true, t') =>
+      let sub : Trace × Tree :=
+        if t'.entry.offset % 3 = 0 then treeSkip ctx fuel t' (depth + 1) true
+        else if t'.entry.offset % 3 = 1 then (([], .ok ()), t')
+        else treeSkip ctx fuel t' (depth + 1) false
+      match sub.1.2 with
+      | .ok () =>
+        if all then
+          let rest := treeSkip ctx fuel sub.2 depth true
+          ((t'.entry :: (sub.1.1 ++ rest.1.1), rest.1.2), rest.2)
+        else ((t'.entry :: sub.1.1, .ok ()), sub.2)
+      | bad => ((t'.entry :: sub.1.1, bad), sub.2)
+    | .ok (false, t') => (([], .ok ()), t')
+    | o => (Trace.fail o, t)
+
+/-- `tree.root()?` then `treeSkip` under the root's own rule -/
+def treeSkipAll (ctx : Ctx) (fuel : Nat) (t : Tree) : Trace :=
+  match t.rootNode ctx with
+  | .ok t' =>
+    if t'.entry.offset % 3 = 0 then (treeSkip ctx fuel t' 1 true).1.cons t'.entry
+    else if t'.entry.offset % 3 = 1 then ([t'.entry], .ok ())
+    else (treeSkip ctx fuel t' 1 false).1.cons t'.entry
+  | o => Trace.fail o
+
 /-! ## positioned reads -/
 
 /-- `UnitHeader::entries_raw(abbrevs, Some(offset))` -/
